@@ -221,7 +221,7 @@ def run(ctx):
             continue
         cases.append({"kind": "lib", "src": os.path.basename(f), "text": text, "snap": 2,
                       "auto": {"seed": ctx.rng.randrange(1 << 30), "kinds": ["flatten"], "max_reqs": 8,
-                               "n2": ctx.scaled(4, 16), "n3": ctx.scaled(1, 8), "n4": ctx.scaled(0, 4)}})
+                               "n2": ctx.scaled(3, 16), "n3": ctx.scaled(1, 8), "n4": ctx.scaled(0, 4)}})
     # casadi generate on a few test models (generate() flattens the caller's tree without copying it first)
     for name in ["Spring.mo", "SimpleCircuit.mo", "NestedClasses.mo", "ConstantReferences.mo", "Aircraft.mo", "Connector.mo"]:
         f = core.REPO + "/test/models/" + name
